@@ -2,8 +2,11 @@
 
 ASSUMPTIONS = [
     "timing is not modelled: backoff durations, ConnectTimeout/ResubscribeTimeout/QueueTimeout/DisconnectTimeout expiries are events of the "
-    "monitor that may happen whenever the code waits on them; real time is sampled by the tie only (ms-scale timeouts, acknowledgements "
-    "either prompt or never, so that a timer never races an acknowledgement)",
+    "monitor that may happen whenever the code waits on them; real time is sampled by the tie only (backoff 1-4 ms, Connect/Resubscribe "
+    "timeout 1.5 s, QueueTimeout 60 ms / 5 s, DisconnectTimeout 20 ms; the scripted peers answer at once or never, so that a timer does "
+    "not race an acknowledgement); if a timeout nevertheless expires on an attempt whose peer is fault free (machine overloaded), the "
+    "script's liveness expectations for that scenario are reported as inconclusive (stat inconclusive_slow_machine), its trace is still "
+    "checked by the monitor",
     "the client (client.Client) appears through its interface: connect result, call results with the packet id, acknowledgements reaching the "
     "shared future store, error callback, Disconnect/Close returning; its internals are C09/C10's model",
     "sync.Mutex, buffered channels, select and tomb behave as in DESIGN.md 3.2 (a mutex-protected method is one step, a channel is a bounded "
